@@ -58,7 +58,7 @@ def seeded():
             meta = json.load(open(mpth))
         num = int(name.split("_")[1])
         rnd = (1 if num <= 2 else 2 if num <= 4 else (3 if name[:3] in ("C01", "C03", "C07", "C08", "C10", "C12", "C14", "C20") else 4) if num <= 6
-               else 5 if num <= 8 else 6 if num <= 10 else 7)
+               else 5 if num <= 8 else 6 if num <= 10 else 7 if num <= 12 else 8)
         if name[:3] in ("C14", "C20") and num == 3:
             rnd = 2
         own = name[:3]
